@@ -430,12 +430,18 @@ class C13(Prop):
             for mi, head in enumerate(('#[::derive_ex::derive_ex(%s)]', '#[derive(::derive_ex::Ex)] #[derive_ex(%s)]')):
                 prim.append(l2.Module(9 * 10 ** 6 + 2 * k + mi, PRIMITIVES + (head % tl) + '\n' + decl + '\npub fn run() {}',
                                       _Lit('%s %s   [with `struct bool; struct usize; struct u8; ..` in scope]' % ((head % tl).replace('::derive_ex::', ''), decl), -1, 'Kq')))
+        # KNOWN FINDING (known_findings.json): a const parameter named like a TYPE in scope (`Option`) - the self type is written
+        # `B<Option>`, which rustc reads as a type argument (E0747); the standard derive compiles
+        for mi, head in enumerate(('#[::derive_ex::derive_ex(Clone, Debug)]', '#[derive(::derive_ex::Ex)] #[derive_ex(Clone, Debug)]')):
+            prim.append(l2.Module(9 * 10 ** 6 + 500 + mi, head + '\npub struct B<const Option: usize>(pub [u8; Option]);\npub fn run() {}',
+                                  _Lit(head.replace('::derive_ex::', '') + ' struct B<const Option: usize>([u8; Option]);', -1, 'Kq')))
         l2.compile_batch('c13prim', prim, prelude='', check_only=True, crate_attrs=allow)
         for mo in prim:
             if mo.compiled:
                 validated += 1
             else:
-                failures.append(dict(**{'class': 'renaming-changes-the-program', 'mode': 'primitive type names redefined'}, input=mo.meta.input_text(),
+                failures.append(dict(**{'class': 'renaming-changes-the-program', 'mode': 'const parameter named like a type' if mo.cid >= 9 * 10 ** 6 + 500
+                                        else 'primitive type names redefined'}, input=mo.meta.input_text(),
                                      expected='compiles: generated code does not depend on what the scope calls `bool`, `usize`, ..',
                                      observed=[d['message'] for d in mo.diags if d['level'] == 'error'][:3]))
         l2.cleanup('c13prim')
